@@ -5,8 +5,15 @@ set -uo pipefail
 cd "$(dirname "$0")"
 . ./env.sh
 id="$1"; tier="${2:-quick}"
-if [ ! -x checker/istiocheck ] || [ -n "$(find checker -name '*.go' -newer checker/istiocheck 2>/dev/null | head -1)" ]; then
-  (cd checker && go build -o istiocheck .) || { echo "VIOLATION property=$id replay=checker-build-failed"; exit 1; }
+need_build() { [ ! -x checker/istiocheck ] || [ -n "$(find checker -name '*.go' -newer checker/istiocheck 2>/dev/null | head -1)" ]; }
+if need_build; then
+  # checks may be started in parallel: build once, under a lock, and install the binary atomically
+  (
+    flock 9
+    if need_build; then
+      (cd checker && go build -o istiocheck.new . && mv -f istiocheck.new istiocheck) || exit 1
+    fi
+  ) 9>checker/.build.lock || { echo "VIOLATION property=$id replay=checker-build-failed"; exit 1; }
 fi
 if [ "$tier" = "--explain" ]; then exec checker/istiocheck -explain "$3"; fi
 REPO="${VERIF_REPO:-/repo}"
